@@ -548,6 +548,7 @@ package raft
 //@ func Raft.appendConfiguration
 //@   flags lockheld
 //@   requires [pre-nonnil] configuration != nil && r.log != nil && r.transport != nil && r.logger != nil
+//@   ensures [frame] forall c *Configuration :: c != configuration ==> c.Index == old(c.Index)
 //@   ensures [entry] Llast == old(Llast) + 1 && configuration.Index == Llast && Lterm[Llast] == r.currentTerm && Ltyp[Llast] == ConfigurationEntry && forall i int :: i <= old(Llast) ==> Lterm[i] == old(Lterm[i]) && Ltyp[i] == old(Ltyp[i]) && Ldata[i] == old(Ldata[i])
 
 //@ func Raft.submitReplicatedOperation
